@@ -47,6 +47,7 @@ type Stmt struct {
 	Vals   map[string]string `json:"vals,omitempty"`
 	HasAll bool              `json:"hasall,omitempty"`
 	All    []string          `json:"all,omitempty"`
+	Tuple  bool              `json:"astuple,omitempty"`
 }
 type Obs struct {
 	Store []string   `json:"store"`
@@ -58,6 +59,7 @@ type Rec struct {
 	Kinds  map[string]string `json:"kinds"`
 	Bodies map[string][]Stmt `json:"bodies"`
 	Policy string            `json:"policy"`
+	StarEr string            `json:"starerr"`
 	Alts   int               `json:"alts"`
 	Obs    []Obs             `json:"obs"`
 }
@@ -242,6 +244,8 @@ func (r *renderer) stmt(importer string, idx int, s Stmt) string {
 	}
 	w("except ImportError:")
 	w("    vlog.log(" + I + ", " + ix + ", 'ImportError')")
+	w("except AttributeError:") // only the import statement itself can raise it here: the observations guard their own
+	w("    vlog.log(" + I + ", " + ix + ", 'AttributeError')")
 	w("except ValueError:")
 	if importer == "main" {
 		w("    vlog.log(" + I + ", " + ix + ", 'ValueError')")
@@ -286,7 +290,14 @@ func setSrc(s Stmt) string {
 		for _, n := range s.All {
 			l = append(l, q(n))
 		}
-		b.WriteString("__all__ = [" + strings.Join(l, ", ") + "]\n")
+		if s.Tuple {
+			if len(l) == 1 {
+				l[0] += ","
+			}
+			b.WriteString("__all__ = (" + strings.Join(l, ", ") + ")\n")
+		} else {
+			b.WriteString("__all__ = [" + strings.Join(l, ", ") + "]\n")
+		}
 	}
 	return b.String()
 }
@@ -336,11 +347,19 @@ func prepare(worker int, dir string, rec *Rec) (*world, error) {
 					g[n] = py.String(v)
 				}
 				if s.HasAll {
-					l := py.NewList()
-					for _, n := range s.All {
-						l.Append(py.String(n))
+					if s.Tuple {
+						t := py.Tuple{}
+						for _, n := range s.All {
+							t = append(t, py.String(n))
+						}
+						g["__all__"] = t
+					} else {
+						l := py.NewList()
+						for _, n := range s.All {
+							l.Append(py.String(n))
+						}
+						g["__all__"] = l
 					}
-					g["__all__"] = l
 				}
 			}
 			py.RegisterModule(&py.ModuleImpl{Info: py.ModuleInfo{Name: r.conc(m)}, Globals: g})
@@ -620,7 +639,7 @@ func sampleCfgs(rng *rand.Rand, n int, mods []string, maxMain int) string {
 	for len(seen) < n {
 		c := cfgT{Mods: map[string]cfgMod{}}
 		for _, m := range mods {
-			cm := cfgMod{Kind: "src", Pre: []cfgStmt{}, Post: []cfgStmt{}, All: []string{"no", "v", "vh"}[rng.Intn(3)], Raises: "no"}
+			cm := cfgMod{Kind: "src", Pre: []cfgStmt{}, Post: []cfgStmt{}, All: []string{"no", "no", "empty", "emptyt", "v", "vh", "vz"}[rng.Intn(7)], Raises: "no"}
 			switch k := rng.Intn(8); {
 			case k >= 7:
 				cm.Kind = "goglob"
@@ -768,7 +787,12 @@ func main() {
 				cs.Alts = append(cs.Alts, rec)
 				if len(cs.Alts) == rec.Alts {
 					delete(pending, key)
-					sort.Slice(cs.Alts, func(i, j int) bool { return cs.Alts[i].Policy > cs.Alts[j].Policy }) // "remove" (Python 3.4) first
+					sort.Slice(cs.Alts, func(i, j int) bool { // Python 3.4's choices first: remove, AttributeError
+						if cs.Alts[i].Policy != cs.Alts[j].Policy {
+							return cs.Alts[i].Policy > cs.Alts[j].Policy
+						}
+						return cs.Alts[i].StarEr < cs.Alts[j].StarEr
+					})
 					jobs <- cs
 				}
 			}})
@@ -911,8 +935,13 @@ func check(worker int, dir string, cs *Case, two bool, rep *common.Report, cnt *
 	}
 	if len(cs.Alts) > 1 {
 		for _, m := range []*Rec{matched, matched2} {
-			if m != nil && !sameObs(cs.Alts[0], cs.Alts[1]) {
-				cnt.policies[m.Policy]++
+			if m != nil {
+				for _, o := range cs.Alts {
+					if o != m && !sameObs(o, m) { // the choice was observable
+						cnt.policies[m.Policy+"/"+m.StarEr]++
+						break
+					}
+				}
 			}
 		}
 	}
@@ -935,6 +964,7 @@ func replay(env *common.Env, rep *common.Report) {
 			Bodies  map[string][]Stmt `json:"bodies"`
 			Allowed []struct {
 				Policy string `json:"policy"`
+				StarEr string `json:"starerr"`
 				Obs    []Obs  `json:"obs"`
 			} `json:"allowed"`
 		} `json:"case"`
@@ -944,7 +974,7 @@ func replay(env *common.Env, rep *common.Report) {
 	}
 	cs := &Case{Family: f.Case.Family, Key: string(b)}
 	for _, a := range f.Case.Allowed {
-		cs.Alts = append(cs.Alts, &Rec{Fam: f.Case.Family, Kinds: f.Case.Kinds, Bodies: f.Case.Bodies, Policy: a.Policy, Alts: len(f.Case.Allowed), Obs: a.Obs})
+		cs.Alts = append(cs.Alts, &Rec{Fam: f.Case.Family, Kinds: f.Case.Kinds, Bodies: f.Case.Bodies, Policy: a.Policy, StarEr: a.StarEr, Alts: len(f.Case.Allowed), Obs: a.Obs})
 	}
 	dir := filepath.Join(env.Scratch, "mods1")
 	os.MkdirAll(dir, 0o755)
@@ -966,7 +996,7 @@ func sameObs(a, b *Rec) bool {
 func obsOf(cs *Case) []interface{} {
 	var out []interface{}
 	for _, a := range cs.Alts {
-		out = append(out, map[string]interface{}{"policy": a.Policy, "obs": a.Obs})
+		out = append(out, map[string]interface{}{"policy": a.Policy, "starerr": a.StarEr, "obs": a.Obs})
 	}
 	return out
 }
